@@ -73,9 +73,47 @@ def _trees_for(g: gen.Gen, spec: describe.StructSpec, prop: str, tier_: str) -> 
 # C01
 
 
-def c01_worker(res: Result, i: int, n: int) -> None:
+def c01_case(res: Result, cls: type, spec: describe.StructSpec, tree: dict, tail: bytes) -> bytes | None:
     from kio.serial import entity_reader
 
+    res.count("cases")
+    try:
+        inst = describe.tree_to_instance(spec, tree)
+        enc = kio_encode(cls, inst)
+    except Exception as exc:  # noqa: BLE001
+        res.violation(f"encode-raises:{cls.__name__}:{_exc_key(exc)}",
+                      f"encoding an in-range {walk.class_path(cls)} instance raised {exc!r}",
+                      _case_payload(cls, tree, tail=tail, error=traceback.format_exc()))
+        return None
+    src = ReadOnlySource(enc + tail)
+    try:
+        dec = entity_reader(cls)(src)
+    except Exception as exc:  # noqa: BLE001
+        res.violation(f"decode-raises:{cls.__name__}:{_exc_key(exc)}",
+                      f"decoding kio's own encoding of {walk.class_path(cls)} raised {exc!r}",
+                      _case_payload(cls, tree, tail=tail, encoding=enc, error=traceback.format_exc()))
+        return None
+    if not (dec == inst):
+        res.violation(f"not-identity:{cls.__name__}:{_first_diff_field(spec, dec, inst)}",
+                      f"decode(encode(x)) != x for {walk.class_path(cls)} (first differing field "
+                      f"{_first_diff_field(spec, dec, inst)})",
+                      _case_payload(cls, tree, tail=tail, encoding=enc, decoded=repr(dec)[:2000]))
+    else:
+        res.count("identity_ok")
+    pos = src.observed_position()
+    if pos != len(enc) or src.observed_events() or src.observed_requested() != len(enc):
+        res.violation(f"consumption:{cls.__name__}",
+                      f"decoder consumed {pos} bytes (requested {src.observed_requested()}) of a {len(enc)}-byte "
+                      f"encoding followed by {len(tail)} foreign bytes; events={src.observed_events()}",
+                      _case_payload(cls, tree, tail=tail, encoding=enc, reads=src.observed_reads()[:50]))
+    else:
+        res.count("consumption_ok")
+    if tail:
+        res.count("cases_with_tail")
+    return enc
+
+
+def c01_worker(res: Result, i: int, n: int) -> None:
     classes = _my_classes(i, n)
     distinct: set[bytes] = set()
     cells_total = 0
@@ -85,46 +123,11 @@ def c01_worker(res: Result, i: int, n: int) -> None:
         rng = common.rng_for("C01", walk.class_path(cls))
         g = gen.Gen(rng, "canonical")
         for tree in _trees_for(g, spec, "C01", res.tier):
-            res.count("cases")
-            try:
-                inst = describe.tree_to_instance(spec, tree)
-                enc = kio_encode(cls, inst)
-            except Exception as exc:  # noqa: BLE001
-                res.violation(f"encode-raises:{cls.__name__}:{_exc_key(exc)}",
-                              f"encoding an in-range {walk.class_path(cls)} instance raised {exc!r}",
-                              _case_payload(cls, tree, error=traceback.format_exc()))
-                continue
             tail = rng.randbytes(rng.choice((0, 1, 7, 64)))
-            src = ReadOnlySource(enc + tail)
-            try:
-                dec = entity_reader(cls)(src)
-            except Exception as exc:  # noqa: BLE001
-                res.violation(f"decode-raises:{cls.__name__}:{_exc_key(exc)}",
-                              f"decoding kio's own encoding of {walk.class_path(cls)} raised {exc!r}",
-                              _case_payload(cls, tree, encoding=enc, error=traceback.format_exc()))
-                continue
-            if not (dec == inst):
-                res.violation(f"not-identity:{cls.__name__}:{_first_diff_field(spec, dec, inst)}",
-                              f"decode(encode(x)) != x for {walk.class_path(cls)} (first differing field "
-                              f"{_first_diff_field(spec, dec, inst)})",
-                              _case_payload(cls, tree, encoding=enc, decoded=repr(dec)[:2000]))
-            else:
-                res.count("identity_ok")
-            if hash(dec) != hash(inst):
-                res.count("hash_differs_note")
-            pos = src.observed_position()
-            if pos != len(enc) or src.observed_events() or src.observed_requested() != len(enc):
-                res.violation(f"consumption:{cls.__name__}",
-                              f"decoder consumed {pos} bytes (requested {src.observed_requested()}) of a {len(enc)}-byte "
-                              f"encoding followed by {len(tail)} foreign bytes; events={src.observed_events()}",
-                              _case_payload(cls, tree, encoding=enc, tail=tail, reads=src.observed_reads()[:50]))
-            else:
-                res.count("consumption_ok")
-            if tail:
-                res.count("cases_with_tail")
-            if gen.is_nontrivial(spec, tree):
+            enc = c01_case(res, cls, spec, tree, tail)
+            if enc is not None and gen.is_nontrivial(spec, tree):
                 distinct.add(hashlib.sha256(cls.__module__.encode() + cls.__name__.encode() + enc).digest()[:12])
-            if res.counters["cases"] % 4001 == 1:
+            if res.counters["cases"] % 4001 == 1 and enc is not None:
                 res.sample({"class": walk.class_path(cls), "tree": tree, "encoding": enc})
         cells_total += g.total_cells(spec)
         cells_hit += len({c for c in g.cells_hit if c[0] == spec.name and any(f.name == c[1] for f in spec.fields)})
@@ -172,7 +175,7 @@ def c02_worker(res: Result, i: int, n: int) -> None:
 
 
 def _c02_case(res: Result, cls: type, spec: describe.StructSpec, tree: dict, distinct: set, roles: dict,
-              label: str | None = None) -> None:
+              label: str | None = None, derived: dict | None = None) -> None:
     res.count("cases")
     name = label or walk.class_path(cls)
     ref, layout = refcodec.encode(spec, tree)
@@ -182,7 +185,7 @@ def _c02_case(res: Result, cls: type, spec: describe.StructSpec, tree: dict, dis
     except Exception as exc:  # noqa: BLE001
         res.violation(f"encode-raises:{cls.__name__}:{_exc_key(exc)}",
                       f"encoding an in-range {name} instance raised {exc!r}",
-                      _case_payload(cls, tree, label=name, error=traceback.format_exc()))
+                      _case_payload(cls, tree, label=name, derived=derived, error=traceback.format_exc()))
         return
     if got != ref:
         at = refcodec.first_diff(got, ref)
@@ -190,7 +193,7 @@ def _c02_case(res: Result, cls: type, spec: describe.StructSpec, tree: dict, dis
         res.violation(f"bytes-differ:{cls.__name__}:{role}:{path.split('[')[0]}",
                       f"{name}: kio encoding differs from the Kafka wire format at byte {at} "
                       f"(reference role {role!r} of {path}); kio={got[max(0, at - 4):at + 8].hex()} ref={ref[max(0, at - 4):at + 8].hex()}",
-                      _case_payload(cls, tree, label=name, kio=got, reference=ref, first_diff=at, role=role, path=path))
+                      _case_payload(cls, tree, label=name, derived=derived, kio=got, reference=ref, first_diff=at, role=role, path=path))
         return
     res.count("bytes_equal")
     for _, _, role, _ in layout:
@@ -249,7 +252,8 @@ def _c02_derived(res: Result, distinct: set, roles: dict) -> None:
             g = gen.Gen(rng, "canonical")
             for tree in g.each_choice(dspec, extra_random=2):
                 _c02_case(res, dcls, dspec, tree, distinct, roles,
-                          label=f"derived({walk.class_path(cls)}, tags={tag_map}, reversed={bool(v % 2)})")
+                          label=f"derived({walk.class_path(cls)}, tags={tag_map}, reversed={bool(v % 2)})",
+                          derived={"base": walk.class_path(cls), "tag_map": [[a, b] for a, b in tag_map.items()], "reversed": bool(v % 2)})
                 res.count("derived_cases")
             res.count("derived_classes")
 
@@ -263,9 +267,42 @@ def _wire_trees(g: gen.Gen, spec: describe.StructSpec, prop: str, tier_: str) ->
     return trees
 
 
-def c03_worker(res: Result, i: int, n: int) -> None:
+def c03_case(res: Result, cls: type, spec: describe.StructSpec, tree: dict, tail: bytes) -> bytes | None:
     from kio.serial import entity_reader
 
+    res.count("cases")
+    wire, layout = refcodec.encode(spec, tree)
+    expected = describe.tree_to_instance(spec, tree)
+    src = ReadOnlySource(wire + tail)
+    try:
+        dec = entity_reader(cls)(src)
+    except Exception as exc:  # noqa: BLE001
+        res.violation(f"rejects-conforming:{_exc_key(exc)}:{_extras_kind(tree)}",
+                      f"{walk.class_path(cls)}: decoding a conforming encoding raised {exc!r} "
+                      f"(extras: {_extras_kind(tree)})",
+                      _case_payload(cls, tree, tail=tail, wire=wire, error=traceback.format_exc()))
+        return None
+    try:
+        back = describe.instance_to_tree(spec, dec)
+        same = bits_equal_tree(back, tree)
+    except describe.Inexact as exc:
+        same = False
+        back = f"<not representable: {exc}>"
+    if not same or not _eq_or_nan(dec, expected, spec, tree):
+        res.violation(f"wrong-value:{cls.__name__}:{_diff_path(back, tree)}",
+                      f"{walk.class_path(cls)}: decoded value differs from what is on the wire at {_diff_path(back, tree)}",
+                      _case_payload(cls, tree, tail=tail, wire=wire, decoded=back))
+        return None
+    if src.observed_position() != len(wire):
+        res.violation(f"consumption:{cls.__name__}",
+                      f"{walk.class_path(cls)}: decoder consumed {src.observed_position()} of {len(wire)} bytes",
+                      _case_payload(cls, tree, tail=tail, wire=wire))
+        return None
+    res.count("decoded_ok")
+    return wire
+
+
+def c03_worker(res: Result, i: int, n: int) -> None:
     classes = _my_classes(i, n)
     distinct: set[bytes] = set()
     stats_total = {"unknown_tags": 0, "explicit_defaults": 0, "nondefault_tags": 0}
@@ -285,36 +322,10 @@ def c03_worker(res: Result, i: int, n: int) -> None:
             g.stats["unknown_by_depth"]["0"] = g.stats["unknown_by_depth"].get("0", 0) + len(t["$unknown"])
             trees.append(t)
         for tree in trees:
-            res.count("cases")
-            wire, layout = refcodec.encode(spec, tree)
-            expected = describe.tree_to_instance(spec, tree)
             tail = rng.randbytes(rng.choice((0, 3)))
-            src = ReadOnlySource(wire + tail)
-            try:
-                dec = entity_reader(cls)(src)
-            except Exception as exc:  # noqa: BLE001
-                res.violation(f"rejects-conforming:{cls.__name__}:{_exc_key(exc)}:{_extras_kind(tree)}",
-                              f"{walk.class_path(cls)}: decoding a conforming encoding raised {exc!r} "
-                              f"(extras: {_extras_kind(tree)})",
-                              _case_payload(cls, tree, wire=wire, error=traceback.format_exc()))
+            wire = c03_case(res, cls, spec, tree, tail)
+            if wire is None:
                 continue
-            try:
-                back = describe.instance_to_tree(spec, dec)
-                same = bits_equal_tree(back, tree)
-            except describe.Inexact as exc:
-                same = False
-                back = f"<not representable: {exc}>"
-            if not same or not _eq_or_nan(dec, expected, spec, tree):
-                res.violation(f"wrong-value:{cls.__name__}:{_diff_path(back, tree)}",
-                              f"{walk.class_path(cls)}: decoded value differs from what is on the wire at {_diff_path(back, tree)}",
-                              _case_payload(cls, tree, wire=wire, decoded=back))
-                continue
-            if src.observed_position() != len(wire):
-                res.violation(f"consumption:{cls.__name__}",
-                              f"{walk.class_path(cls)}: decoder consumed {src.observed_position()} of {len(wire)} bytes",
-                              _case_payload(cls, tree, wire=wire))
-                continue
-            res.count("decoded_ok")
             subsecond += _count_subsecond(spec, tree)
             if gen.is_nontrivial(spec, tree):
                 distinct.add(hashlib.sha256(cls.__module__.encode() + cls.__name__.encode() + wire).digest()[:12])
@@ -555,3 +566,35 @@ def run(prop: str, tier_: str) -> int:
         floor_ok = False
     return res.finish(c.get("cases", 0) + c.get("noncanonical_cases", 0),
                       int(res.coverage.get("distinct_nontrivial_encodings", 0)), RULES[prop], floor_ok)
+
+
+def replay(prop: str, path: str) -> int:
+    doc = common.load_replay(path)
+    case = doc["case"]
+    res = Result(prop, LEVEL, doc.get("tier", "quick"))
+    cls = walk.resolve(case["class"])
+    tree = case["tree"]
+    if prop == "C02" and case.get("derived"):
+        dv = case["derived"]
+        cls = derive_class(walk.resolve(dv["base"]), {a: b for a, b in dv["tag_map"]}, dv["reversed"])
+    spec = describe.spec_from_class(cls)
+    print(f"replay {prop}: {case['class']} ({doc['key']})")
+    if prop == "C01":
+        c01_case(res, cls, spec, tree, case.get("tail", b""))
+    elif prop == "C02":
+        _c02_case(res, cls, spec, tree, set(), {}, label=case.get("label"), derived=case.get("derived"))
+    elif prop == "C03":
+        c03_case(res, cls, spec, tree, case.get("tail", b""))
+    else:
+        wire = case.get("wire") or refcodec.encode_bytes(spec, tree)
+        canonical = wire == refcodec.encode_bytes(spec, _stripped(tree))
+        _c05_case(res, cls, spec, wire, tree, canonical=canonical)
+    return common.finish_replay(res)
+
+
+def _stripped(tree: dict) -> dict:
+    import copy
+
+    t = copy.deepcopy(tree)
+    _strip_extras(t)
+    return t
